@@ -917,6 +917,16 @@ class CallMixin:
             if isinstance(v.s, Seq):
                 nv = self.fresh(v.s, "sorted", s1)
                 self.assume_perm(s1, v, nv)
+                if v.s.elem in (INT, STR, BYTES):
+                    # same members (a permutation), and for integers (without key=/reverse=) the ends are the extremes
+                    x = v.s.elem.fresh("m")
+                    s1.assume(z3.ForAll([x.t], z3.Contains(v.t, z3.Unit(x.t)) == z3.Contains(nv.t, z3.Unit(x.t))))
+                    if v.s.elem == INT and not kw:
+                        n_ = z3.Length(nv.t)
+                        s1.assume(z3.ForAll([x.t], z3.Implies(z3.Contains(nv.t, z3.Unit(x.t)),
+                                                              z3.And(nv.t[0] <= x.t, x.t <= nv.t[n_ - 1]))))
+                        s1.assume(z3.Implies(n_ > 0, z3.And(z3.Contains(nv.t, z3.Unit(nv.t[n_ - 1])),
+                                                            z3.Contains(nv.t, z3.Unit(nv.t[0])))))
                 res.append((s1, nv))
             elif isinstance(v.s, SetS):
                 so = Seq(v.s.elem)
